@@ -709,3 +709,47 @@ mod tests {
         }
     }
 }
+
+/// Verification hooks: thin wrappers exposing the crate-private filter operators.
+#[cfg(feature = "verif")]
+#[doc(hidden)]
+pub mod verif_hooks {
+    use crate::ir::FieldValue;
+
+    pub fn equals(l: &FieldValue, r: &FieldValue) -> bool {
+        super::equals(l, r)
+    }
+    pub fn greater_than(l: &FieldValue, r: &FieldValue) -> bool {
+        super::greater_than(l, r)
+    }
+    pub fn greater_than_or_equal(l: &FieldValue, r: &FieldValue) -> bool {
+        super::greater_than_or_equal(l, r)
+    }
+    pub fn less_than(l: &FieldValue, r: &FieldValue) -> bool {
+        super::less_than(l, r)
+    }
+    pub fn less_than_or_equal(l: &FieldValue, r: &FieldValue) -> bool {
+        super::less_than_or_equal(l, r)
+    }
+    pub fn has_substring(l: &FieldValue, r: &FieldValue) -> bool {
+        super::has_substring(l, r)
+    }
+    pub fn has_prefix(l: &FieldValue, r: &FieldValue) -> bool {
+        super::has_prefix(l, r)
+    }
+    pub fn has_suffix(l: &FieldValue, r: &FieldValue) -> bool {
+        super::has_suffix(l, r)
+    }
+    pub fn one_of(l: &FieldValue, r: &FieldValue) -> bool {
+        super::one_of(l, r)
+    }
+    pub fn contains(l: &FieldValue, r: &FieldValue) -> bool {
+        super::contains(l, r)
+    }
+    pub fn regex_matches_slow_path(l: &FieldValue, r: &FieldValue) -> bool {
+        super::regex_matches_slow_path(l, r)
+    }
+    pub fn regex_matches_optimized(l: &FieldValue, r: &regex::Regex) -> bool {
+        super::regex_matches_optimized(l, r)
+    }
+}
